@@ -131,6 +131,22 @@ func (sc *c13Scenario) evaluate(sch *crypto.Scheme, pub kyber.Point, engine chai
 			continue
 		}
 		findings, info, label := chk.check(img, d, func(epoch uint32, cur string) string { return sc.label(img, prevEpoch, epoch, cur, prevLabel) })
+		// what a crash leaves behind must not stand in the way of the NEXT save of the same file (the next epoch's
+		// share, a re-generated key): every temporary file found in the image is saved over once more, on the copy
+		_ = filepath.WalkDir(d, func(p string, de os.DirEntry, err error) error {
+			if err != nil || de.IsDir() || !strings.HasSuffix(p, ".tmp") {
+				return nil
+			}
+			target := strings.TrimSuffix(p, ".tmp")
+			secure := strings.Contains(filepath.Base(target), "private")
+			run.Count("crash_leftovers_saved_over", 1)
+			if serr := key.Save(target, sc.victim.priv.Public, secure); serr != nil {
+				rel, _ := filepath.Rel(d, target)
+				findings = append(findings, c13Finding{Sig: "C13/later-save-blocked-by-crash-leftover/" + label,
+					Detail: fmt.Sprintf("the image holds %s.tmp from the interrupted save; saving %s again (as the next epoch would) fails: %v", rel, rel, serr)})
+			}
+			return nil
+		})
 		os.RemoveAll(d)
 		if img.Synth == "" {
 			prevEpoch = img.Epoch
